@@ -636,7 +636,8 @@ class World:
         pq = ()
         if procs is not None:
             pq = _container_sizes(procs)
-        out = tuple(len(c.read_output()) for c in self.children.values())
+        # a helper that does not read (reader_paused) lets its pipe fill: nothing is taken out of it behind its back
+        out = () if getattr(self, 'reader_paused', False) else tuple(len(c.read_output()) for c in self.children.values())
         return (tuple(peers), socks, timers, pq, out, _container_sizes(self.reactor.asynchronous), len(self.events), self.main.done())
 
     def settle(self, max_rounds: int = 4000, calm: int = 8) -> int:
